@@ -25,7 +25,7 @@ func init() {
 		id:    "C08",
 		level: "exploration",
 		rule: "PRNG trees (depth 1-4 x fan-out 1-5, <=150 actors) with idle/busy/crashing nodes, nodes that stop themselves in Started, direct stops of inner nodes, third parties poisoning descendants concurrently with the shutdown, shutdown from the root or an inner node by Poison or Stop; " +
-			"oracle per parent/child edge: every Stopped of the child ends before the parent's final Stopped begins, no descendant is registered while an ancestor handles Stopped, all of it before the stop context is done; Children() == the model's live children, Parent() == the spawner; directed histories: child held inside Stopped while the parent is shut down, self-stopping children, a child id respawned while a third party stops it, a supervisor that spawns a replacement for every worker that says goodbye from its Stopped handler and is then stopped itself, a parent stopped while a child is inside a Receive of 4 s (thorough: 12 s). Non-trivial = >=2 levels; distinct by (tree shape, behaviours, shutdown kind)",
+			"oracle per parent/child edge: every Stopped of the child ends before the parent's final Stopped begins, no descendant is registered while an ancestor handles Stopped, all of it before the stop context is done; Children() == the model's live children, Parent() == the spawner; directed histories: child held inside Stopped while the parent is shut down, self-stopping children, a child id respawned while a third party stops it, a supervisor that spawns a replacement for every worker that says goodbye from its Stopped handler and is then stopped itself, a parent stopped while a child is inside a Receive of 4 s (thorough: 12 s), children of one parent under different names that carry the same id. Non-trivial = >=2 levels; distinct by (tree shape, behaviours, shutdown kind)",
 		assumptions: []string{
 			"the order of Stopped deliveries is taken from one atomic sequence counter incremented at the begin and at the end of every Stopped handler",
 			"a held Stopped handler (directed scenario) is released after 2 ms: the delay only gives an overtaking parent the chance to show itself, the verdict is taken on the sequence numbers",
@@ -38,7 +38,7 @@ func init() {
 			return []modeSpec{
 				{name: "tree", n: n, perChild: n / 16, timeout: 20 * time.Minute},
 				{name: "tree-chaos", n: n, perChild: n / 16, timeout: 20 * time.Minute, env: []string{"VERIF_HOOK=chaos", "VERIF_HOOK_PROB=30", "VERIF_HOOK_MAXUS=50", "VERIF_HOOK_LOCKUS=400"}},
-				{name: "directed", n: 60 * (1 + 7*b2int(tier == "thorough")), perChild: 5, timeout: 10 * time.Minute, env: []string{"VERIF_HOOK=chaos", "VERIF_HOOK_PROB=50", "VERIF_HOOK_MAXUS=50", "VERIF_HOOK_LOCKUS=400"}},
+				{name: "directed", n: 72 * (1 + 7*b2int(tier == "thorough")), perChild: 6, timeout: 10 * time.Minute, env: []string{"VERIF_HOOK=chaos", "VERIF_HOOK_PROB=50", "VERIF_HOOK_MAXUS=50", "VERIF_HOOK_LOCKUS=400"}},
 			}
 		},
 		run: func(c *caseCtx) caseResult {
@@ -532,7 +532,9 @@ func c08Directed(c *caseCtx) (res caseResult) {
 		return mon.count(func(x any) bool { ev, ok := x.(actor.ActorStoppedEvent); return ok && ev.PID.ID == id }) > 0
 	}
 	lg := newTlog()
-	switch c.n % 5 {
+	switch c.n % 6 {
+	case 5:
+		c08Twins(c, e, &res)
 	case 4:
 		return c02Held(c, true)
 	case 3:
@@ -843,3 +845,112 @@ func c08Supervisor(c *caseCtx, e *actor.Engine, res *caseResult) {
 	res.count("supervised_workers", int64(len(lg.spawned)))
 	res.Sig = sigHash("directed", 3, fan, graceful, slow > 0)
 }
+
+// c08Twins: one parent, children under different names that carry the same id (reader/<conn> and
+// writer/<conn>): they are different actors. Children() lists all of them, one that stops on its own
+// takes nobody else out of the list, and stopping the parent stops them all.
+func c08Twins(c *caseCtx, e *actor.Engine, res *caseResult) {
+	r := c.rng
+	wd := watchdog(c.tier)
+	names := []string{"reader", "writer", "pinger"}[:2+r.Intn(2)]
+	conns := 1 + r.Intn(3)
+	var stoppedSeq sync.Map // child id -> seq at end of Stopped
+	var parentBegin int64
+	var parentKids atomic.Value
+	mk := func() actor.Receiver {
+		return &funcRecv{f: func(c *actor.Context) {
+			if _, ok := c.Message().(actor.Stopped); ok {
+				stoppedSeq.Store(c.PID().ID, atomic.AddInt64(&treeSeq, 1))
+			}
+		}}
+	}
+	parent := e.Spawn(func() actor.Receiver {
+		return &funcRecv{f: func(c *actor.Context) {
+			switch m := c.Message().(type) {
+			case actor.Started:
+				for _, nme := range names {
+					for k := 0; k < conns; k++ {
+						c.SpawnChild(mk, nme, actor.WithID(fmt.Sprintf("conn%d", k)))
+					}
+				}
+			case tQuery:
+				var ids []string
+				for _, p := range c.Children() {
+					ids = append(ids, p.ID)
+				}
+				sort.Strings(ids)
+				m.reply <- ids
+			case actor.Stopped:
+				atomic.StoreInt64(&parentBegin, atomic.AddInt64(&treeSeq, 1))
+				var ids []string
+				for _, p := range c.Children() {
+					ids = append(ids, p.ID)
+				}
+				parentKids.Store(ids)
+			}
+		}}
+	}, "tw", actor.WithID("p"))
+	var all []string
+	for _, nme := range names {
+		for k := 0; k < conns; k++ {
+			all = append(all, fmt.Sprintf("tw/p/%s/conn%d", nme, k))
+		}
+	}
+	sort.Strings(all)
+	res.Desc = fmt.Sprintf("directed: %d children of one parent under %d names sharing %d ids", len(all), len(names), conns)
+	ids, ok := queryChildren(e, parent, wd)
+	if !ok {
+		res.inconclusive("parent did not answer")
+		return
+	}
+	if strings.Join(ids, ",") != strings.Join(all, ",") {
+		res.violate("Children() = %v, the parent spawned %v (children under different names that carry the same id are different actors)", ids, all)
+	}
+	// one of them stops on its own
+	gone := all[r.Intn(len(all))]
+	select {
+	case <-e.Poison(actor.NewPID("local", gone)).Done():
+	case <-time.After(wd):
+		res.inconclusive("child did not stop")
+		return
+	}
+	var rest []string
+	for _, id := range all {
+		if id != gone {
+			rest = append(rest, id)
+		}
+	}
+	ids, ok = queryChildren(e, parent, wd)
+	if !ok {
+		res.inconclusive("parent did not answer")
+		return
+	}
+	if strings.Join(ids, ",") != strings.Join(rest, ",") {
+		res.violate("after %s stopped on its own Children() = %v, alive are %v", gone, ids, rest)
+	}
+	select {
+	case <-e.Poison(parent).Done():
+	case <-time.After(wd):
+		res.inconclusive("parent did not stop")
+		return
+	}
+	if k, _ := parentKids.Load().([]string); len(k) > 0 {
+		res.violate("the parent handled Stopped while Children() still listed %v", k)
+	}
+	for _, id := range rest {
+		v, ok := stoppedSeq.Load(id)
+		if !ok {
+			res.violate("the parent's stop context is done, but its child %s never handled Stopped", id)
+		} else if v.(int64) > atomic.LoadInt64(&parentBegin) {
+			res.violate("child %s finished Stopped after the parent began its own", id)
+		}
+		if kk, ii := idKind(id); e.Registry.GetPID(kk, ii) != nil {
+			res.violate("the parent's stop context is done, but its child %s is still registered", id)
+		}
+	}
+	res.Sig = sigHash("directed", 5, len(names), conns)
+}
+
+type funcRecv struct{ f func(*actor.Context) }
+
+func (r *funcRecv) Receive(c *actor.Context) { r.f(c) }
